@@ -7,6 +7,8 @@
                   starts / returns (ret carries "ok" | "closed" | "err", "closed"
                   meaning errors.Is(err, ErrClosedConn))
      peergone     the peer closes its end (read loop EOF, write errors follow)
+     ctxcancel    the context the connection was created with is cancelled (the connection then
+                  reports closed, but nothing has torn it down yet)
      teardown     SessionHandler.Disconnected() is invoked (on whichever handler of the
                   connection: teardowns are counted per connection)
      inject       the peer sends packet n; the handler will panic with `kind` on it
@@ -69,7 +71,9 @@ Ret(t, r) ==
     /\ LET o == open[t] IN
          /\ (o.op = "write" /\ o.late) => r = "closed"       \* later writes report closed
          \* a failed write closes the connection; so does every closing call and the loop's exit
-         /\ returned' = (returned \/ o.op \notin {"write", "switch"} \/ (o.op = "write" /\ r = "err"))
+         \* (a closing call answering ErrClosedConn may merely have seen the cancelled context)
+         /\ returned' = (returned \/ o.op = "loop" \/ (o.op \in Closers /\ r # "closed")
+                                  \/ (o.op = "write" /\ r = "err"))
          /\ reason' = (reason \/ o.op = "loop" \/ (o.op = "write" /\ r = "err"))
     /\ open' = Drop(open, t)
     /\ UNCHANGED <<teardowns, handler, injected, handled>>
